@@ -47,6 +47,7 @@ type ElemAddrV struct {
 	Arr  *Arr
 	Idx  string
 	Path []int
+	Nil  string // "" = never nil; otherwise the condition under which this pointer is nil (merged with a nil pointer)
 }
 type PtrV struct { // pointer to a struct object (input objects are lazily materialised)
 	Nil  string
